@@ -139,3 +139,90 @@ Proof.
   assert (existsb qnz (klags (of_rate Rkr cns)) = true) by (apply existsb_exists; eexists; split; eassumption).
   congruence.
 Qed.
+
+(* ------------------------------------------------------------------ statements used by props/C04.v *)
+(* the control parameters of f, as entries with a provisional index *)
+Definition entries (specs : list (string * Q)) (st : bstate) (f : fsig) : list cname :=
+  mk_cnames specs (f_rates f) (length (st_controls st)) 0 (skipn (f_prepend f) (f_params f)).
+
+
+(* the flattened form (was props/C04.v ctl_lags_partial) *)
+Lemma ctl_lags_flat : forall specs st f st' i c,
+  build_one fixed specs (Ok st) f = Ok st' -> st_cindex st = length (st_controls st) ->
+  nth_error (entries specs st f) i = Some c -> cn_rate c = Rkr ->
+  let kl := klags (of_rate Rkr (entries specs st f)) in
+  exists rs r, st_recv st' = st_recv st ++ [rs] /\ nth_error rs i = Some r /\
+    forall j, j < length (cn_default c) ->
+      exists un, nth_error (st_units st') (fst (nth j (r_chans r) (0, 0))) = Some un /\
+        ((existsb qnz kl = true /\ u_cls un = ULag /\
+          nth_error (u_lags un) (snd (nth j (r_chans r) (0, 0))) =
+          nth_error kl (length (gslots Rkr (firstn i (entries specs st f))) + j))
+         \/ (existsb qnz kl = false /\ u_cls un = UControl)).
+Proof.
+  intros specs st f st' i c H Hi Hn RT kl.
+  destruct (build_one_spec _ _ _ _ H Hi) as (cns' & pl & -> & _ & _ & R & _ & _ & _ & _ & L & N).
+  destruct (N i c Hn) as (p & Hp & cls & gl & K & [Hlen Hch]).
+  exists (map recv_of pl), (recv_of (set_index c (slot_of (length (st_controls st)) (entries specs st f) i c), p)).
+  split; [exact R|]. split; [rewrite nth_error_map; unfold entries, placed in *; rewrite Hp; reflexivity|].
+  cbn [recv_of r_chans snd].
+  intros j Hj. destruct (Hch j Hj) as (un & H1 & _ & _ & H4 & H5).
+  exists un. split; [assumption|]. rewrite RT in K, H5. cbn [cls_ok] in K.
+  destruct K as [(Hnz & -> & ->)|(Hnz & ->)]; [left|right]; repeat split; try assumption.
+  apply H5. reflexivity.
+Qed.
+
+
+(* the group is lagged iff some kr parameter has a non-zero lag on one of its slots *)
+Lemma In_klags g x : In x (klags g) ->
+  exists c, In c g /\ In x (wrap_extend (lag_as_list (cn_lag c)) (dlen c)).
+Proof. unfold klags. intro H. apply in_flat_map in H. exact H. Qed.
+
+Lemma lagged_iff cns : Forall lag_wf cns ->
+  (existsb qnz (klags (of_rate Rkr cns)) = true <->
+   exists i c j, nth_error cns i = Some c /\ cn_rate c = Rkr /\ j < length (cn_default c) /\
+     qnz (nth (j mod length (lag_as_list (cn_lag c))) (lag_as_list (cn_lag c)) 0%Q) = true).
+Proof.
+  intro Hwf. split.
+  - intro H. apply existsb_exists in H. destruct H as (x & Hin & Hx).
+    apply In_klags in Hin. destruct Hin as (c & Hc & Hxin).
+    unfold of_rate in Hc. apply filter_In in Hc. destruct Hc as (Hc & Hr). apply rate_eqb_eq in Hr.
+    assert (Hl : lag_wf c) by (rewrite Forall_forall in Hwf; apply Hwf; assumption).
+    apply In_nth_error in Hc. destruct Hc as (i & Hi).
+    apply (In_nth _ _ 0%Q) in Hxin. destruct Hxin as (j & Hj & Hnth).
+    rewrite wrap_extend_length' in Hj by exact Hl.
+    rewrite wrap_extend_nth' in Hnth by assumption.
+    exists i, c, j. repeat split; try assumption. rewrite Hnth. exact Hx.
+  - intros (i & c & j & Hn & Hr & Hj & Hq).
+    apply existsb_exists. eexists. split; [|exact Hq].
+    eapply nth_error_In. apply (klags_at cns i c j); assumption.
+Qed.
+
+Lemma ctl_lags_full : forall specs st f st' i c,
+  build_one fixed specs (Ok st) f = Ok st' -> st_cindex st = length (st_controls st) ->
+  nth_error (entries specs st f) i = Some c -> cn_rate c = Rkr ->
+  let cns := entries specs st f in
+  let l := lag_as_list (cn_lag c) in
+  let lagged := existsb qnz (klags (of_rate Rkr cns)) in
+  l <> [] /\
+  (lagged = true <->
+     exists i' c' j', nth_error cns i' = Some c' /\ cn_rate c' = Rkr /\ j' < length (cn_default c') /\
+       qnz (nth (j' mod length (lag_as_list (cn_lag c'))) (lag_as_list (cn_lag c')) 0%Q) = true) /\
+  exists rs r, st_recv st' = st_recv st ++ [rs] /\ nth_error rs i = Some r /\
+    forall j, j < length (cn_default c) ->
+      exists un, nth_error (st_units st') (fst (nth j (r_chans r) (0, 0))) = Some un /\
+        if lagged
+        then u_cls un = ULag /\
+             nth_error (u_lags un) (snd (nth j (r_chans r) (0, 0))) = Some (nth (j mod length l) l 0%Q)
+        else u_cls un = UControl /\ qnz (nth (j mod length l) l 0%Q) = false.
+Proof.
+  intros specs st f st' i c H Hi Hn RT cns l lagged.
+  assert (Hwf : Forall lag_wf cns) by apply mk_cnames_lag_wf.
+  split.
+  { rewrite Forall_forall in Hwf. apply (Hwf c). eapply nth_error_In. eassumption. }
+  split; [apply lagged_iff; exact Hwf|].
+  destruct (ctl_lags_flat specs st f st' i c H Hi Hn RT) as (rs & r & R & Nr & K).
+  exists rs, r. split; [assumption|]. split; [assumption|].
+  intros j Hj. destruct (K j Hj) as (un & Hu & [(Hnz & Hc & Hl)|(Hz & Hc)]); exists un; (split; [assumption|]).
+  - unfold lagged, cns. rewrite Hnz. split; [assumption|]. rewrite Hl. apply klags_at; assumption.
+  - unfold lagged, cns. rewrite Hz. split; [assumption|]. eapply klags_all_zero; eassumption.
+Qed.
